@@ -573,6 +573,8 @@ func (c *Check) nodeletIDs() {
 	type pair struct{ a, b ssa.Value }
 	var pairs []pair
 	var first token.Pos
+	var declAt ssa.Instruction   // the call that writes the declaration "N<i>_<k> [..."
+	var useAt []ssa.Instruction // the other calls that name the nodelet
 	for _, b := range f.Blocks {
 		for _, ins := range b.Instrs {
 			call, ok := ins.(*ssa.Call)
@@ -616,6 +618,13 @@ func (c *Check) nodeletIDs() {
 				}
 				if ia >= 0 && ib >= 0 && ib < len(args) {
 					pairs = append(pairs, pair{args[ia], args[ib]})
+					if loc[0] == 0 && strings.HasPrefix(format[loc[1]:], " [") {
+						if declAt == nil {
+							declAt = call
+						}
+					} else {
+						useAt = append(useAt, call)
+					}
 					if loc[0] == 0 && loc[1] == len(format) && fi == 0 {
 						// the identifier built once and used by name: every further use counts
 						for n := valueUses(call); n > 1; n-- {
@@ -638,6 +647,18 @@ func (c *Check) nodeletIDs() {
 			c.bad("C18-R1", "nodelet-ids", p.relFile(first), "addNodelets builds the identifier of a label nodelet from different values at different places ("+describeValue(pairs[0].b)+" and "+describeValue(pr.b)+"): the node is declared under one name and an edge (to its nested numeric nodelets) starts at another, undeclared one")
 			return
 		}
+	}
+	// the declaration is written whenever the name is used: a use on a path that skipped the
+	// declaration (a zero-weight tag whose nested numeric tags are still listed) is an edge
+	// from a node that does not exist
+	if declAt != nil {
+		for _, u := range useAt {
+			if u != declAt && !instrDominates(declAt, u) {
+				c.bad("C18-R1", "nodelet-declared", p.relFile(u.Pos()), "addNodelets can name a label nodelet ("+p.relFile(u.Pos())+") on a path that did not write its declaration ("+p.relFile(declAt.Pos())+"): the edge to the nested numeric nodelets then starts at an undeclared node")
+				return
+			}
+		}
+		c.ok("C18-R1", "nodelet-declared", p.relFile(declAt.Pos()), "every use of a label nodelet's name follows its declaration on every path", fmt.Sprintf("the declaration dominates the %d other uses", len(useAt)))
 	}
 	c.ok("C18-R1", "nodelet-ids", p.relFile(first), "a label nodelet is declared, linked and referenced under one identifier", fmt.Sprintf("%d uses of N%%d_%%d in the nodelet loop are built from the same two values", len(pairs)))
 }
